@@ -217,7 +217,10 @@ pub fn run(ctx: &Ctx) -> i32 {
                 match want {
                     Some(wd) => {
                         // LL: error iff depth > limit, threshold = depth. LR: error iff stack len > limit.
-                        if wd != hi {
+                        // LR: the replay from the action log cannot tell whether an empty reduction happens
+                        // before or after a pending shift, its resolution is one stack slot
+                        let differs = if c.built.is_lr { wd.abs_diff(hi) > 1 } else { wd != hi };
+                        if differs {
                             rep.violation(
                                 json!({"kind": "depth-accounting", "lr": c.built.is_lr}),
                                 format!("smallest sufficient depth limit is {hi}, the documented depth of this parse is {wd} ({})", if c.built.is_lr { "maximum LR state stack length" } else { "maximum number of open non-push productions" }),
